@@ -17,10 +17,10 @@ static KSI_DataHash *mk_hash(void) { KSI_DataHash *h = malloc(sizeof(*h)); if (h
 void harness(void) {
 	KSI_DataHash *prev = nondet_bool() ? mk_hash() : NULL;
 	KSI_OctetString *iv = nondet_bool() ? malloc(sizeof(*iv)) : NULL;
-	KSI_BlockSigner *out = NULL;
 	int res;
+	g_bs_out = NULL;
 	if (iv != NULL) { iv->ref = 1; iv->data = NULL; iv->data_len = nondet_size(); }
-	res = KSI_BlockSigner_new(nondet_bool() ? &g_ctx_obj : NULL, (KSI_HashAlgorithm)nondet_int(), prev, iv, nondet_bool() ? &out : NULL);
+	res = KSI_BlockSigner_new(nondet_bool() ? &g_ctx_obj : NULL, (KSI_HashAlgorithm)nondet_int(), prev, iv, nondet_bool() ? &g_bs_out : NULL);
 	REACH("new returns");
 	if (res == KSI_OK && prev != NULL) REACH("new signer with masking");
 	if (res == KSI_OK && prev == NULL) REACH("new signer without masking");
